@@ -7,6 +7,7 @@
    (every multiple the header formats allow) and an arbitrary first-header
    value.  `exts6_valid` is the type invariant of the Rust structs (u8/u13/u32
    ranges, payload length = what the private length field says).  *)
+From EP Require Parse.ConstsAllOk.   (* every numeric `pub const` of the crate, regenerated from the source on every run, has its RFC / IANA value *)
 From EP Require Import Base.Bytes ExtChain.Spec ExtChain.Model ExtChain.View ExtChain.Proofs.
 Local Open Scope N_scope.
 
